@@ -164,6 +164,10 @@ pub trait MatN<T: Tier, const N: usize>:
     fn new_flat(a: [[T; N]; N]) -> Self;
     fn from_cols_arr(a: [[T; N]; N]) -> Self;
     fn from_nested(a: [[T; N]; N]) -> Self;
+    /// the by-reference operand forms of the matrix product: [&a * b, a * &b, &a * &b]
+    fn mul_forms(a: Self, b: Self) -> [Self; 3];
+    /// ... and of the matrix-vector product: [&a * v, a * &v, &a * &v]
+    fn mulv_forms(a: Self, v: Self::V) -> [Self::V; 3];
 }
 impl<T: Tier> MatN<T, 2> for Matrix2<T> {
     type V = Vector2<T>;
@@ -183,6 +187,12 @@ impl<T: Tier> MatN<T, 2> for Matrix2<T> {
     fn from_nested(a: [[T; 2]; 2]) -> Self {
         a.into()
     }
+    fn mul_forms(a: Self, b: Self) -> [Self; 3] {
+        [&a * b, a * &b, &a * &b]
+    }
+    fn mulv_forms(a: Self, v: Self::V) -> [Self::V; 3] {
+        [&a * v, a * &v, &a * &v]
+    }
 }
 impl<T: Tier> MatN<T, 3> for Matrix3<T> {
     type V = Vector3<T>;
@@ -201,6 +211,12 @@ impl<T: Tier> MatN<T, 3> for Matrix3<T> {
     }
     fn from_nested(a: [[T; 3]; 3]) -> Self {
         a.into()
+    }
+    fn mul_forms(a: Self, b: Self) -> [Self; 3] {
+        [&a * b, a * &b, &a * &b]
+    }
+    fn mulv_forms(a: Self, v: Self::V) -> [Self::V; 3] {
+        [&a * v, a * &v, &a * &v]
     }
 }
 impl<T: Tier> MatN<T, 4> for Matrix4<T> {
@@ -223,6 +239,12 @@ impl<T: Tier> MatN<T, 4> for Matrix4<T> {
     }
     fn from_nested(a: [[T; 4]; 4]) -> Self {
         a.into()
+    }
+    fn mul_forms(a: Self, b: Self) -> [Self; 3] {
+        [&a * b, a * &b, &a * &b]
+    }
+    fn mulv_forms(a: Self, v: Self::V) -> [Self::V; 3] {
+        [&a * v, a * &v, &a * &v]
     }
 }
 
